@@ -1,0 +1,17 @@
+//go:build !verif
+
+// Package verifhook provides yield points for external runtime monitors.
+// Without the `verif` build tag all functions are empty.
+package verifhook
+
+// Func is the callback type invoked at every yield point.
+type Func func(instance, point, detail string)
+
+// Enabled reports if the hooks are compiled in.
+const Enabled = false
+
+// Set is a no-op without the verif build tag.
+func Set(f Func) {}
+
+// Yield is a no-op without the verif build tag.
+func Yield(instance, point, detail string) {}
